@@ -4,5 +4,9 @@ import TinsModel.Props.C03
 #print axioms Tins.Props.C03.l2_whole_packet_c03
 #print axioms Tins.Props.C03.whole_packet_c03
 #print axioms Tins.Props.C03.whole_packet_c03_net
+#print axioms Tins.Props.C03.whole_packet_c03_fixpoint
+#print axioms Tins.Props.C03.whole_packet_c03_full
+#print axioms Tins.Props.C03.built_packet_c03_fixpoint
+#print axioms Tins.Props.C03.c03_fixpoint_all_stacks_fails
 #print axioms Tins.Props.C03.parsed_packet_representable
 #print axioms Tins.Props.C03.whole_packet_pad_le
